@@ -897,7 +897,13 @@ def run(ctx):
     for s in [s for s in vsummaries if len(s["world"]["decls"]) >= 3][:2]:
         ctx.sample(s)
     ctx.assumptions += [
-        "one fault class at a time (the statement lists classes; combinations are 'alone' or 'among valid packages')",
+        "one fault class at a time (the statement lists classes; combinations are 'alone' or 'among valid packages'), except that a "
+        "package which fails to load is also combined with every unusual-but-valid package trait (ignored / test-only / generated files ...)",
+        "a cyclic templated value that every level below overrides (no mock uses it) must fail when written at package level -- there the "
+        "statement's list and the unchanged code agree; written at top level or at interface level the unchanged code never resolves it "
+        "(exit 0): the contract leaves those two placements undecided (exit 'any', only panic / trace / mocks-written are judged)",
+        "go.mod: the destination's governing go.mod may be a nested one; without a module directive (empty, comment-only, only go / toolchain / "
+        "require / replace / exclude / retract, BOM) the run must fail with a diagnostic and never panic, with one (anywhere in the file) it succeeds",
         "an invalid regular expression is only required to fail where the expression is in effect (all: false / include set / recursive with a sub-package)",
         "a diagnostic is any output line that is not an INF/DBG/WRN log line; wording is not checked",
         "valid worlds are judged by exit status, panic scan and presence of `type <Mock> ` in the output; that the output compiles is C01's business",
@@ -906,5 +912,13 @@ def run(ctx):
     return {"level": "model_checking", "exhaustive": False}
 
 
+def run_guarded(ctx):
+    """an I/O problem of the harness itself (disk full, ...) is 'could not decide' (exit 2), never exit 1"""
+    try:
+        return run(ctx)
+    except OSError as e:
+        raise MachineryError(f"harness I/O error: {e!r}")
+
+
 if __name__ == "__main__":
-    main("C09", run)
+    main("C09", run_guarded)
